@@ -79,3 +79,64 @@ def accumulators(prog, ci, entry='_initialize'):
 def need(cond, msg):
     if not cond:
         raise AnalysisError(msg)
+
+
+_scalar_cache = {}
+
+
+def scalar_attrs(prog):
+    """attribute names that only ever hold immutable scalars (so `obj.attr op= v` rebinds, it cannot mutate in place):
+    every plain binding in the package assigns a scalar constant, or a parameter that all call sites bind to a scalar
+    constant."""
+    if id(prog) in _scalar_cache:
+        return _scalar_cache[id(prog)]
+    from . import kernels
+    binds = {}
+    for f in prog.funcs:
+        for t, st, how in kernels.stores(f.node):
+            if isinstance(t, ast.Attribute) and how == 'bind':
+                binds.setdefault(t.attr, []).append((f, st.value if not isinstance(st, ast.AugAssign) else None))
+    for ci in prog.classes.values():
+        for name, v in ci.class_assigns.items():
+            binds.setdefault(name, []).append((None, v))
+
+    def scalar_const(v):
+        return isinstance(v, ast.Constant) and isinstance(v.value, (int, float, bool, str, type(None)))
+
+    def param_always_const(f, pname):
+        sites = 0
+        for g in prog.funcs:
+            for n in ast.walk(g.node):
+                if isinstance(n, ast.Call):
+                    d = prog.dotted(g.mod, n.func) if isinstance(n.func, (ast.Name, ast.Attribute)) else None
+                    if d == f.mod.name + '.' + f.qualname:
+                        params = f.params
+                        arg = None
+                        for i, a in enumerate(n.args):
+                            if i < len(params) and params[i] == pname:
+                                arg = a
+                        for k in n.keywords:
+                            if k.arg == pname:
+                                arg = k.value
+                        if arg is None or not scalar_const(arg):
+                            return False
+                        sites += 1
+        return sites > 0
+    out = set()
+    for name, lst in binds.items():
+        ok = True
+        for f, v in lst:
+            if v is None:
+                ok = False
+            elif scalar_const(v):
+                continue
+            elif isinstance(v, ast.Name) and f is not None and v.id in f.params and param_always_const(f, v.id):
+                continue
+            else:
+                ok = False
+            if not ok:
+                break
+        if ok:
+            out.add(name)
+    _scalar_cache[id(prog)] = out
+    return out
